@@ -7,6 +7,7 @@ import (
 	"fmt"
 	"math/rand"
 	"net"
+	"sort"
 	"strconv"
 	"strings"
 
@@ -57,11 +58,15 @@ func randOp(r *rand.Rand, g geo, subs int) string {
 		return fmt.Sprintf("release %x", g.RandAddr(r))
 	case x < 68:
 		return fmt.Sprintf("mark %x", g.RandAddr(r))
-	case x < 88:
+	case x < 86:
 		// the requested address is drawn from the whole network and its surroundings: on these small
 		// pools it is, in turn, the client's own address, another client's, a free one, a declined one,
 		// the gateway, the network/broadcast address, a reserved one or one outside the network
 		return fmt.Sprintf("reserve %s %x", m, g.RandAddr(r))
+	case x < 91:
+		return "list"
+	case x < 95:
+		return fmt.Sprintf("contains %x", g.RandAddr(r))
 	default:
 		return "stats"
 	}
@@ -72,7 +77,7 @@ func tail(subs int) []string {
 	for i := 1; i <= subs; i++ {
 		out = append(out, fmt.Sprintf("alloc m%d", i))
 	}
-	return append(out, "stats")
+	return append(out, "stats", "list")
 }
 
 func (comp) Gen(r *rand.Rand, tier string, emit func([]string)) {
@@ -103,7 +108,8 @@ func (comp) Gen(r *rand.Rand, tier string, emit func([]string)) {
 	}
 }
 
-// exhaustive: every sequence of mutating operations (12 of them) to depth 5 over 3 MACs on a /29 with the gateway
+// exhaustive: every sequence of 17 operations (12 mutating, 3 out-of-range, 2 read-only) to depth 4
+// over 3 MACs, and of the 12 mutating ones to depth 5, on a /29 with the gateway
 // inside (5 usable addresses) and a /30, followed by the observers.
 func exhaustive(emit func([]string)) {
 	for _, g := range []geo{{V4: smallGeos[2]}, {V4: smallGeos[0], re: 2}} {
@@ -121,18 +127,22 @@ func exhaustive(emit func([]string)) {
 				alpha = append(alpha, fmt.Sprintf("reserve m%d %x", s, first+u))
 			}
 		}
-		var rec func(prefix []string, depth int)
-		rec = func(prefix []string, depth int) {
+		// out-of-range requests (network address, one beyond the network) and read-only operations
+		all := append(append([]string{}, alpha...), fmt.Sprintf("reserve m1 %x", g.Net),
+			fmt.Sprintf("release %x", g.Net+uint32(g.Span())), fmt.Sprintf("mark %x", g.Net+uint32(g.Span())), "stats", "list")
+		var rec func(ab, prefix []string, depth int)
+		rec = func(ab, prefix []string, depth int) {
 			if depth == 0 {
 				seq := append([]string{g.newOp()}, prefix...)
 				emit(append(seq, tail(3)...))
 				return
 			}
-			for _, x := range alpha {
-				rec(append(prefix[:len(prefix):len(prefix)], x), depth-1)
+			for _, x := range ab {
+				rec(ab, append(prefix[:len(prefix):len(prefix)], x), depth-1)
 			}
 		}
-		rec(nil, 5)
+		rec(alpha, nil, 5)
+		rec(all, nil, 4)
 	}
 }
 
@@ -201,6 +211,35 @@ func (r *run) Do(op string) string {
 			return "badop"
 		}
 		return strconv.FormatBool(r.p.Reserve(mac(f[1]), ip))
+	case f[0] == "list" && len(f) == 1:
+		alloc, _, _ := r.p.SnapshotForVerif()
+		type kv struct {
+			n  int
+			ip net.IP
+		}
+		var l []kv
+		for m, ip := range alloc {
+			hw, err := net.ParseMAC(m)
+			if err != nil || len(hw) != 6 {
+				return "error mac " + m
+			}
+			l = append(l, kv{int(hw[3])<<16 | int(hw[4])<<8 | int(hw[5]), ip})
+		}
+		if len(l) == 0 {
+			return "-"
+		}
+		sort.Slice(l, func(i, j int) bool { return l[i].n < l[j].n })
+		parts := make([]string, len(l))
+		for i, e := range l {
+			parts[i] = fmt.Sprintf("m%d=%s", e.n, flx.Hex4(e.ip))
+		}
+		return strings.Join(parts, ",")
+	case f[0] == "contains" && len(f) == 2:
+		ip, ok := flx.ParseHex4(f[1])
+		if !ok {
+			return "badop"
+		}
+		return strconv.FormatBool(r.p.Contains(ip))
 	case f[0] == "stats" && len(f) == 1:
 		s := r.p.Stats()
 		return fmt.Sprintf("%d %d %d %d", s.Allocated, s.Available, s.Total, s.Unavailable)
